@@ -397,7 +397,7 @@ macro_rules! with_wt {
 }
 
 pub fn wrid(t: u8, d: u8) -> ResourceId {
-    with_wt!(t, T, ResourceId::new_with_dynamic_id::<T>(d as u64))
+    with_wt!(t, T, ResourceId::new_with_dynamic_id::<T>(crate::res::dyn_id(if d == 1 { 2 } else if d == 2 { 3 } else { d })))
 }
 
 pub fn wtype_id(t: u8) -> TypeId {
